@@ -854,6 +854,9 @@ class Terms(object):
                 # x[0] and the first target of ``a, b = x`` are one value
                 n = self._arity(base)
                 return self._comp(base, idx[1], n if n is not None else -1)
+            if idx == ("elem", base):
+                # d[k] for k iterating d itself: the value of that entry
+                return ("comp", ("elem", ("items", base)), 1)
             if idx[0] == "elem" and idx[1][0] == "call" and \
                     idx[1][1] == ("global", "range") and not idx[1][3] and \
                     len(idx[1][2]) in (1, 2):
@@ -1587,6 +1590,75 @@ def alternatives(t, _seen=None):
                 out.append(y)
         return out
     return [t]
+
+
+def chunked(rec, DATA, size, const):
+    """Does ``rec`` denote the consecutive ``size``-byte pieces of ``DATA``,
+    in order?  Two spellings: (a) the head ``x[:size]`` of a remainder that
+    starts as DATA and is replaced by its tail ``x[size:]``; (b)
+    ``DATA[s:s + size]`` for s over ``range(0, len(DATA), size)``.
+    ``const(term)`` folds a term to an int (or None)."""
+    if rec[0] != "item" or rec[2][0] != "slice":
+        return False
+    base, (_, lo, hi, st) = rec[1], rec[2]
+    if st != ("const", None):
+        return False
+    none = ("const", None)
+    if lo == none and const(hi) == size:
+        alts = one_level(base)
+        rest = [x for x in alts if x != DATA]
+        if DATA not in alts or len(rest) != 1:
+            return False
+        r = rest[0]
+        return r[0] == "item" and r[2][0] == "slice" and \
+            const(r[2][1]) == size and r[2][2] == none and \
+            r[2][3] == none and r[1] == base
+    if base == DATA and lo[0] == "elem":
+        m = match(("call", ("global", "range"), (V("a"), V("b"), V("c")), ()),
+                  lo[1])
+        if m is None:
+            return False
+        if hi[0] != "binop" or hi[1] != "Add" or lo not in (hi[2], hi[3]):
+            return False
+        step = hi[3] if hi[2] == lo else hi[2]
+        return const(m["a"]) == 0 and const(m["c"]) == size and \
+            const(step) == size and \
+            plain(m["b"]) == ("call", ("global", "len"), (plain(DATA),), ())
+    return False
+
+
+def chunk_index(t, size, const):
+    """The iterable of chunk start offsets when ``t`` is the running number
+    of the chunk in spelling (b) of chunked(): ("index", range(0, n, size))."""
+    if t[0] == "index":
+        m = match(("call", ("global", "range"), (V("a"), V("b"), V("c")), ()),
+                  t[1])
+        if m is not None and const(m["a"]) == 0 and const(m["c"]) == size:
+            return m["b"]
+    return None
+
+
+def concat_parts(T, t):
+    """The element term when ``t`` is the in-order concatenation of one
+    element per loop iteration: an accumulator that starts empty and has the
+    element appended with ``+``, or ``sep.join(<list or comprehension>)``
+    with an empty separator (the list being a comprehension or filled by
+    appends in a loop).  Else None."""
+    if t[0] == "mu":
+        alts = one_level(t)
+        empty = [x for x in alts if x[0] == "const" and x[1] in (b"", "")]
+        grow = [x for x in alts if x[0] == "binop" and x[1] == "Add" and
+                x[2] == t]
+        if len(empty) == 1 and len(grow) == 1 and len(alts) == 2:
+            return grow[0][3]
+        return None
+    if t[0] in ("call", "callv") and t[1][0] == "attr" and \
+            t[1][2] == "join" and t[1][1][0] == "const" and \
+            t[1][1][1] in (b"", "") and len(t[2]) == 1:
+        built = T.filtered(t[2][0])
+        if built and len(built) == 1 and not built[0][2]:
+            return built[0][1]
+    return None
 
 
 def one_level(t):
